@@ -97,25 +97,25 @@ Definition run_gen (fuel:nat) (stk:list (term * term)) (t:target) (ops:list op) 
 Definition A (s:string) := TAtom (d s).
 Definition ex_prog (p:nat) : code (term * term) unit nat * unit :=
   match p with
-  | 0 => (CSeq (CFor (fun _ _ => ELeaf (TVar 1, A "a")) CYield)
-               (CFor (fun _ _ => ELeaf (TVar 1, A "b")) CYield), tt)
-  | 1 => (CFor (fun _ _ => ECall 0)
-            (CFor (fun _ _ => ECall 2)
-               (CFor (fun _ _ => ELeaf (TVar 2, TFun (d "f") [TVar 1])) CYield)), tt)
+  | 0 => (CSeq (CFor (fun _ _ _ => ELeaf (TVar 1, A "a")) CYield)
+               (CFor (fun _ _ _ => ELeaf (TVar 1, A "b")) CYield), tt)
+  | 1 => (CFor (fun _ _ _ => ECall 0)
+            (CFor (fun _ _ _ => ECall 2)
+               (CFor (fun _ _ _ => ELeaf (TVar 2, TFun (d "f") [TVar 1])) CYield)), tt)
   | _ => (* boom *)
-         (CFor (fun _ _ => ELeaf (TVar 1, A "b")) (CSeq CRaise CYield), tt)
+         (CFor (fun _ _ _ => ELeaf (TVar 1, A "b")) (CSeq CRaise CYield), tt)
   end.
 (* boom as written above: `for l in unify(X, b): raise` then (X is not b) falls through without
    yielding; to let the first answer through we use: if X unifies with a: yield *)
 Definition ex_prog2 (p:nat) : code (term * term) unit nat * unit :=
   match p with
-  | 2 => (CSeq (CFor (fun _ _ => ELeaf (TVar 1, A "b")) CRaise)
-               (CFor (fun _ _ => ELeaf (TVar 1, A "a")) CYield), tt)
+  | 2 => (CSeq (CFor (fun _ _ _ => ELeaf (TVar 1, A "b")) CRaise)
+               (CFor (fun _ _ _ => ELeaf (TVar 1, A "a")) CYield), tt)
   | _ => ex_prog p
   end.
 
 Definition ex_run (k:nat) :=
-  nexts umkleaf ulnext ulclose ex_prog2 100 10 k [(7, A "keep")] (IFresh (fst (ex_prog2 1)) tt).
+  nexts umkleaf ulnext ulclose ex_prog2 (fun _ => 0) 100 10 k [(7, A "keep")] (IFresh (fst (ex_prog2 1)) tt).
 
 (* first answer: X = a, Y = f(a) on top of the initial heap; closing there restores it *)
 Example ex_first :
@@ -132,6 +132,6 @@ Proof. vm_compute. reflexivity. Qed.
 
 (* recursion limit 1: the call of q cannot be entered; RecursionError unwinds everything *)
 Example ex_reclimit :
-  nexts umkleaf ulnext ulclose ex_prog2 100 1 1 [(7, A "keep")] (IFresh (fst (ex_prog2 1)) tt)
+  nexts umkleaf ulnext ulclose ex_prog2 (fun _ => 0) 100 1 1 [(7, A "keep")] (IFresh (fst (ex_prog2 1)) tt)
   = Some ([(7, A "keep")], IDone, [], RRaise).
 Proof. vm_compute. reflexivity. Qed.
